@@ -763,6 +763,52 @@ func (e *Env) callExpr(ex *ast.CallExpr) (SVal, error) {
 			}
 		}
 		return SVal{}, fmt.Errorf("res(%s): no such event on this path", pat)
+	case "appended":
+		// appended(s, v): the slice value s with v appended (contents compared by matchEvent)
+		sv, err := e.eval(ex.Args[0])
+		if err != nil {
+			return SVal{}, err
+		}
+		v, err := e.eval(ex.Args[1])
+		if err != nil {
+			return SVal{}, err
+		}
+		if sv.K != KSlice {
+			return SVal{}, fmt.Errorf("appended: not a slice")
+		}
+		arr := sv.Snap
+		if arr == "" {
+			arr = e.X.arrTerm(e.St, sv)
+			if e.Old {
+				if iv, ok := e.St.Init[sv.Loc]; ok {
+					arr = iv.T
+				}
+			}
+		}
+		r := sv
+		r.Snap = "(store " + arr + " " + plus(sv.Off, sv.Len) + " " + e.X.termOf(e.St, v) + ")"
+		r.Len = plus(sv.Len, "1")
+		r.Loc = "spec:" + r.Loc
+		return r, nil
+	case "fresh":
+		// fresh(s): the slice s (current value) shares no array with a slice passed to an event on this path
+		c := e.sub()
+		c.Old = false
+		sv, err := c.eval(ex.Args[0])
+		if err != nil {
+			return SVal{}, err
+		}
+		if sv.K != KSlice {
+			return SVal{}, fmt.Errorf("fresh: not a slice")
+		}
+		for _, ev := range e.Events {
+			for _, a := range ev.Args {
+				if a.K == KSlice && a.Loc == sv.Loc {
+					return mkBool("false"), nil
+				}
+			}
+		}
+		return mkBool("true"), nil
 	case "len":
 		v, err := e.eval(ex.Args[0])
 		if err != nil {
@@ -905,9 +951,42 @@ func (e *Env) matchEvent(p ast.Expr, ev Event) (string, error) {
 		if id, ok := a.(*ast.Ident); ok && id.Name == "_" {
 			continue
 		}
+		if fc, ok := a.(*ast.CallExpr); ok && exprString(fc.Fun) == "fields" {
+			// fields(p0, p1, ...): field-wise pattern on a struct argument, `_` matches anything
+			arg := ev.Args[i]
+			if arg.K != KStruct || len(fc.Args) > len(arg.Elems) {
+				return "false", nil
+			}
+			for j, fa := range fc.Args {
+				if id, ok := fa.(*ast.Ident); ok && id.Name == "_" {
+					continue
+				}
+				fv, err := e.eval(fa)
+				if err != nil {
+					return "", err
+				}
+				cs = append(cs, e.X.valEq(e.St, arg.Elems[j], fv))
+			}
+			continue
+		}
 		v, err := e.eval(a)
 		if err != nil {
 			return "", err
+		}
+		if v.K == KSlice && ev.Args[i].K == KSlice {
+			// slices passed in events are compared by content (length and array snapshot)
+			a1, a2 := ev.Args[i], v
+			s1, s2 := a1.Snap, a2.Snap
+			if s2 == "" {
+				s2 = e.X.arrTerm(e.St, a2)
+				if e.Old {
+					if iv, ok := e.St.Init[a2.Loc]; ok {
+						s2 = iv.T
+					}
+				}
+			}
+			cs = append(cs, and(eq(a1.Len, a2.Len), eq(a1.Off, a2.Off), eq(s1, s2)))
+			continue
 		}
 		cs = append(cs, e.X.valEq(e.St, ev.Args[i], v))
 	}
